@@ -38,6 +38,7 @@ type Program struct {
 	privCache    map[*ssa.Function]map[ssa.Value]bool
 	ghostDecls   map[string]*GhostVar // every ghost variable declared by some contract (auto-declared elsewhere)
 	ghostPkg     map[string]string
+	bodyMode     map[*ssa.Function]bool
 	loadSeconds  float64
 }
 
@@ -97,7 +98,7 @@ func loadProgram(dir string, patterns []string, overlay map[string][]byte) (*Pro
 	P := &Program{dir: dir, pkgs: pkgs, prog: prog, contracts: map[string]*FuncContract{},
 		loopCache: map[*ssa.Function]map[*ssa.BasicBlock]*loopInfo{}, constGlobals: map[string]bool{},
 		globalInit: map[string][]constant.Value{}, globalType: map[string]types.Type{}, tagSeq: map[string]bool{}, extraImports: map[string]*types.Package{},
-		allPkgs: map[string]*packages.Package{}, specOpts: map[string][]string{}, preds: map[string]*Pred{}, axioms: map[string][]*Clause{}, privCache: map[*ssa.Function]map[ssa.Value]bool{}, ghostDecls: map[string]*GhostVar{}, ghostPkg: map[string]string{}}
+		allPkgs: map[string]*packages.Package{}, specOpts: map[string][]string{}, preds: map[string]*Pred{}, axioms: map[string][]*Clause{}, privCache: map[*ssa.Function]map[ssa.Value]bool{}, ghostDecls: map[string]*GhostVar{}, ghostPkg: map[string]string{}, bodyMode: map[*ssa.Function]bool{}}
 	packages.Visit(pkgs, nil, func(p *packages.Package) { P.allPkgs[p.PkgPath] = p })
 	// build only repo packages (dependencies stay as declarations: calls into them are external)
 	for _, p := range P.allPkgs {
@@ -160,6 +161,11 @@ func loadProgram(dir string, patterns []string, overlay map[string][]byte) (*Pro
 
 // resolveKey turns a contract's local name into a global key.
 func (P *Program) resolveKey(p *packages.Package, name string) (string, error) {
+	if strings.HasPrefix(name, "body:") {
+		// a second contract for the same function, used only to verify its body (never applied at call sites)
+		k, err := P.resolveKey(p, strings.TrimPrefix(name, "body:"))
+		return "body:" + k, err
+	}
 	if i := strings.LastIndex(name, "/"); i >= 0 {
 		// "<import path suffix>.Rest": match an imported package by path suffix
 		j := strings.Index(name[i:], ".")
@@ -279,6 +285,9 @@ func closureVarName(fn *ssa.Function) string {
 }
 
 func (P *Program) contractFor(fn *ssa.Function) *FuncContract {
+	if c, ok := P.contracts["body:"+funcKey(fn)]; ok && P.bodyMode[fn] {
+		return c
+	}
 	return P.contracts[funcKey(fn)]
 }
 
@@ -294,6 +303,7 @@ func (P *Program) isSpec(fn *ssa.Function) bool {
 func (P *Program) autoInline(fn *ssa.Function) bool { return false }
 
 func (P *Program) findFunc(key string) *ssa.Function {
+	key = strings.TrimPrefix(key, "body:")
 	for _, p := range P.allPkgs {
 		sp := P.prog.Package(p.Types)
 		if sp == nil || !strings.HasPrefix(key, p.PkgPath+".") {
